@@ -421,6 +421,9 @@ def derived(run, m, F, E):
     return n
 
 
+UNSIGNED_CHAR = [False]
+
+
 def own_fmt(env):
     from . import own
     return own.fmt_env(env)
@@ -441,6 +444,10 @@ def ci_step(run, m, F, E):
                 k = len([e for e in st.events if e[0] == 'fold'])
                 st.ev('fold', inst, args[0])
                 a = 'fold%d' % k
+                # the folded value is a `char`: signed or unsigned as the configuration under analysis says
+                if UNSIGNED_CHAR[0]:
+                    st.rng[a] = (0, 255)
+                    return [(st, IntV(8, Lin.atom(a), 'u'))]
                 st.rng[a] = (-128, 127)
                 return [(st, IntV(8, Lin.atom(a), 's'))]
             return None
@@ -596,6 +603,7 @@ def case_maps(run, m, F):
 
 def check(run):
     m = run.module()
+    UNSIGNED_CHAR[0] = '-funsigned-char' in run.config[1]
     F = run.facts()
     E = run.effects()
     run.trust('clang 14 lowering (LLVM IR, -O0, mem2reg)', 'STIR interpreter',
